@@ -2,6 +2,8 @@ import HpxVerif.Lemmas.BitsLemmas
 import HpxVerif.Lemmas.UniqLemmas
 import HpxVerif.Lemmas.BmiLemmas
 
+set_option autoImplicit false   -- an unknown identifier in a statement is an error, never a new variable
+
 /-!
 # C18 — bit-level encodings are exact: z-order interleaving and uniq numbers
 
